@@ -1,0 +1,18 @@
+//go:build verif
+
+// Contracts for package robustdeterminate, read by /verif's govc. Comment-only.
+package robustdeterminate
+
+// C11: partial correctness over the reals - whatever SignOfDet2x2 returns is the sign of x1*y2 - x2*y1.
+// The normalisation blocks and every step of the Euclid-like loop preserve sign * sgn(det) (row operations
+// leave the determinant unchanged, swaps and negations flip sign and det together). Termination is not
+// claimed (over the reals the loop need not terminate).
+//@ func SignOfDet2x2
+//@   floats real
+//@   ensures res == (x1 * y2 - x2 * y1 > 0.0 ? 1 : (x1 * y2 - x2 * y1 < 0.0 ? 0 - 1 : 0))
+//@   modifies nothing
+//@   decreases *
+//@   loop 1:
+//@     invariant 0.0 < x1 && x1 <= x2 && 0.0 < y1 && y1 <= y2 && (sign == 1 || sign == 0 - 1)
+//@     invariant sign == 1 ==> ((x1 * y2 - x2 * y1 > 0.0 <==> x10 * y20 - x20 * y10 > 0.0) && (x1 * y2 - x2 * y1 < 0.0 <==> x10 * y20 - x20 * y10 < 0.0))
+//@     invariant sign == 0 - 1 ==> ((x1 * y2 - x2 * y1 > 0.0 <==> x10 * y20 - x20 * y10 < 0.0) && (x1 * y2 - x2 * y1 < 0.0 <==> x10 * y20 - x20 * y10 > 0.0))
